@@ -129,7 +129,7 @@ func (r *reusePass) run() []reuseVerdict {
 				continue
 			}
 			for i, it := range items {
-				v, short := gateOnce(op, it.c)
+				v, short := gateOnce(op, it.c, i%2 == 1)
 				if v == "pass" {
 					out = append(out, reuseVerdict{it.c.Prop, it.text, "pass"})
 				} else {
